@@ -38,14 +38,32 @@ subcategory: Street
 match: contains("COFFEE") and contains("ROASTERS") and amount > 100
 category: Business
 subcategory: Supplies
+
+[Refs]
+let: code = extract("REF(\\d+)")
+match: code == "77"
+category: Refs
+subcategory: R
+
+[Named]
+match: contains("BAKERY")
+merchant: Fancy Bakery Co
+category: Food
+subcategory: Bakery
+
+[Largest]
+match: huge and not contains("COFFEE")
+category: Large
+subcategory: L
 '''
+RULES = 'huge = amount > 5000\n' + RULES
 
 
 def make_budget(mode):
     b = Budget()
     b.write('data/card.csv', 'Date,Description,Amount\n01/05/2025,COFFEE SHOP,4.50\n01/06/2025,ORDER 77 STORE,30.00\n01/07/2025,SATURDAY MARKET STALL,12.00\n'
                              '01/08/2025,POS CART 5,7.00\n01/09/2025,UNKNOWN PLACE,9.99\n01/10/2025,COFFEE ROASTERS WHOLESALE,650.00\n01/11/2025,ORDER 99 STORE,15.00\n'
-                             '01/12/2025,UNKNOWN PLACE,-3.00\n')
+                             '01/12/2025,UNKNOWN PLACE,-3.00\n01/13/2025,PAY REF77 X,5.00\n01/14/2025,CORNER BAKERY,8.00\n01/15/2025,NEW CAR,9000.00\n01/16/2025,POS SQ BLUE BOTTLE 44,6.00\n')
     b.write('data/orders.csv', 'Date,Id,Item,Amount\n01/01/2025,77,SECRET ORDER ROW,5.00\n01/02/2025,78,OTHER ROW,6.00\n')
     b.write('config/merchants.rules', RULES)
     b.settings({'year': 2025, 'merchants_file': 'config/merchants.rules', 'rule_mode': mode, 'data_sources': [
@@ -112,7 +130,8 @@ def check_explain_description(mode):
     try:
         path = os.path.join(b.config, 'merchants.rules')
         for desc, amount in (('COFFEE SHOP', 4.5), ('SATURDAY MARKET STALL', 12.0), ('SATURDAY MARKET COFFEE', 5.0), ('POS CART 5', 7.0), ('NOTHING', 1.0),
-                             ('COFFEE ROASTERS WHOLESALE', 650.0), ('COFFEE ROASTERS WHOLESALE', 20.0)):
+                             ('COFFEE ROASTERS WHOLESALE', 650.0), ('COFFEE ROASTERS WHOLESALE', 20.0), ('PAY REF77 X', 5.0), ('PAY REF78 X', 5.0), ('CORNER BAKERY', 8.0),
+                             ('NEW CAR', 9000.0), ('NEW CAR', 90.0), ('POS SQ BLUE BOTTLE 44', 6.0), ('POS NOWHERE KNOWN', 2.0)):
             clear_engine_cache()
             rules = get_all_rules(path, match_mode=mode)
             tr = get_transforms(path, match_mode=mode)
